@@ -160,7 +160,7 @@ fn main() {
             let idc = id.clone();
             let h = std::thread::Builder::new().stack_size(8 << 20).spawn(move || run_line(&idc, &l)).unwrap();
             let r = h.join().unwrap_or_else(|_| "PANIC ?: escaped".to_string());
-            println!("{}", r.replace('\n', "\\n"));
+            println!("{}", common::one_line(&r));
             use std::io::Write as _;
             std::io::stdout().flush().unwrap();
         }
@@ -250,7 +250,7 @@ fn main() {
     let mut f = std::io::BufWriter::new(std::fs::File::create(&impl_path).unwrap());
     for part in results {
         for l in part {
-            writeln!(f, "{}", l.replace('\n', "\\n")).unwrap();
+            writeln!(f, "{}", common::one_line(&l)).unwrap();
         }
     }
     drop(f);
